@@ -17,6 +17,13 @@ use crate::simfs::SimFs;
 
 pub const DB_PATH: &str = "/db";
 
+/// foreign files whose names resemble the database's own but do not parse to a file number
+pub const FOREIGN_LOOKALIKES: [&str; 12] = [
+    "/db/data/7.rdb.bak", "/db/data/.rdb", "/db/data/-3.rdb", "/db/data/3.RDB", "/db/data/18446744073709551616.rdb",
+    "/db/wal/wal-.log", "/db/wal/wal-1.log.old", "/db/wal/x.log", "/db/wal/wal--1.log",
+    "/db/.manifest", "/db/MANIFEST-1.manifest.bak", "/db/+.dbtemp",
+];
+
 thread_local! {
     /// protocol tracker of the history running on this thread (reset at every open)
     static SCHED: std::cell::RefCell<crate::c09::SchedTracker> = std::cell::RefCell::new(crate::c09::SchedTracker::default());
@@ -374,6 +381,11 @@ pub struct Stats {
     pub flush_levels_checked: u64,
     pub persist_relation_checked: u64,
     pub snapshot_lists_checked: u64,
+    /// deletion passes (`remove_obsolete_files`) compared with the model's per-name decision
+    pub obsolete_passes: u64,
+    pub obsolete_names: u64,
+    pub obsolete_deleted: u64,
+    pub obsolete_foreign_names: u64,
     pub persist_directory_exact: u64,
     pub flushes_below_level0: u64,
     pub output_loops_checked: u64,
@@ -496,6 +508,60 @@ fn save_request(req: &str) -> String {
 /// request continues, and the bound on the number of rounds of a request (theorem
 /// C09_manual_rounds_bounded: every round takes at least one file out of the level; files that
 /// flushes and other compactions add to the level meanwhile are counted in).
+/// Every deletion pass of the real database against the model's decision per NAME
+/// (`Rain.FileNames.deletes`, about which `Rain/Props/FileNames.lean` proves that live names survive,
+/// foreign names are never touched and the pass over names is the pass over numbers): the event
+/// carries what `remove_obsolete_files` consulted, every path it looked at and what it marked.
+pub fn validate_obsolete(drv: &mut crate::drv::Drv, events: &[Event], obs: &mut Vec<Obs>, stats: &mut Stats, at: usize) {
+    for ev in events {
+        let Event::ObsoletePass { live, wal_number, prev_wal_number, manifest_number, listed, deleted } = ev else { continue };
+        stats.obsolete_passes += 1;
+        let marked: std::collections::BTreeSet<&String> = deleted.iter().collect();
+        for folder in ["wal", "data", "main"] {
+            let paths: Vec<&String> = listed.iter().filter(|(f, _)| *f == folder).map(|(_, p)| p).collect();
+            let names: Vec<&str> = paths.iter().map(|p| p.rsplit('/').next().unwrap_or("")).collect();
+            if names.is_empty() || names.iter().any(|n| n.is_empty() || *n == "." || *n == "..") {
+                continue;
+            }
+            let req = format!(
+                "fname.pass {folder} {} {wal_number} {} {manifest_number} {}",
+                if live.is_empty() { "-".to_string() } else { live.iter().map(|n| n.to_string()).collect::<Vec<_>>().join(",") },
+                prev_wal_number.map_or("-".to_string(), |n| n.to_string()),
+                names.iter().map(|n| crate::fnames::enc(n)).collect::<Vec<_>>().join(";")
+            );
+            let ans = drv.ask(&req);
+            if ans == "no-model" {
+                return;
+            }
+            if ans.len() != names.len() {
+                obs.push(Obs { sig: "c11:deletion-pass-outside-the-verified-decision".into(), what: format!("the model does not answer the deletion pass request ({ans}): {req}"), at });
+                continue;
+            }
+            for ((path, name), bit) in paths.iter().zip(names.iter()).zip(ans.chars()) {
+                stats.obsolete_names += 1;
+                let real = marked.contains(*path);
+                if real {
+                    stats.obsolete_deleted += 1;
+                }
+                // a name of the database's own, still needed according to what the pass consulted
+                let needed = match folder {
+                    "data" => name.strip_suffix(".rdb").and_then(|n| n.parse::<u64>().ok()).map_or(false, |n| n.to_string() + ".rdb" == *name && live.contains(&n)),
+                    "wal" => name.strip_prefix("wal-").and_then(|n| n.strip_suffix(".log")).and_then(|n| n.parse::<u64>().ok()).map_or(false, |n| format!("wal-{n}.log") == *name && (n >= *wal_number || Some(n) == *prev_wal_number)),
+                    _ => *name == "CURRENT" || *name == "LOCK" || name.strip_prefix("MANIFEST-").and_then(|n| n.strip_suffix(".manifest")).and_then(|n| n.parse::<u64>().ok()).map_or(false, |n| format!("MANIFEST-{n}.manifest") == *name && n >= *manifest_number),
+                };
+                if crate::fnames::own_name(name).is_none() {
+                    stats.obsolete_foreign_names += 1;
+                }
+                if real && needed {
+                    obs.push(Obs { sig: "c11:live-file-marked-for-deletion".into(), what: format!("the deletion pass marked {path} although it consulted live tables {live:?}, WAL number {wal_number}, previous WAL {prev_wal_number:?}, manifest {manifest_number}: a file the database needs is removed"), at });
+                } else if real != (bit == '1') {
+                    obs.push(Obs { sig: "c11:deletion-pass-outside-the-verified-decision".into(), what: format!("the deletion pass {} {path} (folder {folder}; live tables {live:?}, WAL number {wal_number}, previous WAL {prev_wal_number:?}, manifest {manifest_number}) but the model's decision (Rain.FileNames.deletes, theorems C11_live_names_survive / C11_foreign_names_survive / C11_name_level_pass_is_the_number_level_pass) is to {} it", if real { "marked" } else { "kept" }, if bit == '1' { "delete" } else { "keep" }), at });
+                }
+            }
+        }
+    }
+}
+
 pub fn validate_manual(drv: &mut crate::drv::Drv, events: &[Event], obs: &mut Vec<Obs>, stats: &mut Stats, at: usize) {
     let bound = |k: &Option<Vec<u8>>| k.as_ref().map_or("*".to_string(), |k| hex(k));
     let ikey = |k: &Option<raindb::verif::IKey>| k.as_ref().map_or("*".to_string(), |k| hex(&k.0));
@@ -1075,7 +1141,7 @@ pub fn check_files(fs: &SimFs, st: &StateDump, no_readers: bool, obs: &mut Vec<O
                     obs.push(Obs { sig: "c11:orphan-manifest-with-larger-number-kept".into(), what: format!("manifest {n} is on disk but the current manifest is {} (remove_obsolete_files keeps manifests numbered above the current one)", st.manifest_number), at });
                 }
             }
-        } else if name.ends_with(".dbtemp") && no_readers {
+        } else if matches!(crate::fnames::own_name(&name), Some(("temp", _))) && no_readers {
             obs.push(Obs { sig: "c11:temp-file-kept".into(), what: format!("temp file {s} is on disk"), at });
         }
     }
@@ -1188,6 +1254,7 @@ pub fn run_history(h: &History, checks: &Checks, fs: &SimFs) -> RunOut {
         let events = raindb::verif::events_take(DB_PATH);
         if let Some(dr) = drv.as_mut() {
             validate_events(dr, &events, obs, stats, at, chain);
+            validate_obsolete(dr, &events, obs, stats, at);
             // a snapshot the client held at the previous quiescent point and still holds now was alive
             // during every compaction in between: none of them may have used a larger "smallest
             // snapshot" (the model's view-preservation theorem only protects views at or above it)
@@ -1318,6 +1385,11 @@ pub fn run_history(h: &History, checks: &Checks, fs: &SimFs) -> RunOut {
                 fs.write_file_raw(std::path::Path::new("/db/ARCHIVE/old.txt"), b"keep me".to_vec());
                 fs.write_file_raw(std::path::Path::new("/db/0notes.txt"), b"keep me too".to_vec());
                 fs.write_file_raw(std::path::Path::new("/db/data/README"), b"not a table".to_vec());
+                // names next to the database's own: none of them parses to a file number, so the
+                // deletion pass must leave them alone (Rain/Props/FileNames.lean C11_foreign_names_survive)
+                for p in FOREIGN_LOOKALIKES {
+                    fs.write_file_raw(std::path::Path::new(p), b"foreign".to_vec());
+                }
                 foreign = true;
             }
             Op::SeekN(k, n) => {
@@ -1764,7 +1836,7 @@ pub fn run_history(h: &History, checks: &Checks, fs: &SimFs) -> RunOut {
     }
     iters.clear();
     if foreign {
-        for p in ["/db/ARCHIVE/old.txt", "/db/0notes.txt", "/db/data/README"] {
+        for p in ["/db/ARCHIVE/old.txt", "/db/0notes.txt", "/db/data/README"].iter().chain(FOREIGN_LOOKALIKES.iter()) {
             if fs.read_file(std::path::Path::new(p)).is_none() {
                 obs.push(Obs { sig: "c11:foreign-file-removed".into(), what: format!("{p}, a file the database does not own, was removed from its directory"), at: h.ops.len() });
             }
